@@ -97,6 +97,15 @@ Theorem c01_strict_refuted : strict_witness 7 /\ strict_witness 15 /\ strict_wit
 Proof. exact strict_refuted. Qed.
 Print Assumptions c01_strict_refuted.
 
+(* Before the two repairs (e132014, 9b2bd15) "every other request receives an error" was false:
+   a POST with an unparsable Origin header got an empty 200 (shape 68), and an HTML client with a
+   password-only session under [U2F] got the second-factor page with status 200 (shape 6). *)
+Theorem c01_old_refuted :
+  (exists st q c, certgen_old no_expand false st 0%Z true q = Refused c /\ c < 400) /\
+  (exists st q c, certgen_old no_expand true st 0%Z true q = Refused c /\ c < 400).
+Proof. exact old_refuted. Qed.
+Print Assumptions c01_old_refuted.
+
 (* ---- non-vacuity *)
 (* a TOTP session under [TOTP; Okta2FA] is served, the same session under [Okta2FA] is not,
    a password-only session under [U2F; TOTP] gets 401, a sealed server answers 500 *)
